@@ -29,6 +29,9 @@ def get_prop(pid):
     if pid == "C19":
         import p_config
         return p_config.ConfigProp()
+    if pid == "C09":
+        import p_obs
+        return p_obs.ObsProp()
     raise SystemExit(f"unknown property {pid}")
 
 
